@@ -220,7 +220,13 @@ class SecondsTimedeltaProvider(MorphingProvider):
         def timedelta_loader(data):
             if type(data) not in ok_types:
                 raise TypeLoadError(Union[int, float, Decimal], data)
-            return timedelta(seconds=int(data), microseconds=int(data % 1 * 10 ** 6))
+            try:
+                if type(data) is Decimal:
+                    int_part = int(data)
+                    return timedelta(seconds=int_part, microseconds=int((data - int_part) * 10 ** 6))
+                return timedelta(seconds=data)
+            except (OverflowError, ValueError):
+                raise ValueLoadError("Value is out of the range of supported values", data)
 
         return timedelta_loader
 
